@@ -25,7 +25,9 @@ from hypergraph.viz.renderer.nodes import (
 )
 from hypergraph.viz.renderer.scope import (
     find_container_entrypoints,
+    enter_expanded_producer,
     find_internal_producer_for_output,
+    internal_output_name,
 )
 
 
@@ -167,7 +169,7 @@ def add_merged_output_edges(
             if is_source_container and is_source_expanded and value_name:
                 internal_producer = output_to_producer.get(value_name)
                 if internal_producer and internal_producer != source and is_descendant_of(internal_producer, source, flat_graph):
-                    actual_source = internal_producer
+                    actual_source = enter_expanded_producer(source, internal_producer, value_name, flat_graph, expansion_state)
                 else:
                     internal_source = find_internal_producer_for_output(source, value_name, flat_graph, expansion_state)
                     if internal_source:
@@ -291,6 +293,7 @@ def add_separate_output_edges(
 
                 if is_source_container and is_source_expanded:
                     actual_producer = output_to_producer.get(value_name, source)
+                    actual_producer = enter_expanded_producer(source, actual_producer, value_name, flat_graph, expansion_state)
                     data_value = value_name
                     if actual_producer == source:
                         internal_producer = find_internal_producer_for_output(source, value_name, flat_graph, expansion_state)
@@ -305,6 +308,11 @@ def add_separate_output_edges(
                             data_value = internal_value
                     # Producer inside a collapsed inner container: use that container's DATA node
                     data_source = nearest_visible_ancestor(actual_producer, flat_graph, expansion_state)
+                    if data_source != source:
+                        # the DATA node carries the name its owner knows the value by
+                        exact_value = internal_output_name(source, data_source, value_name, flat_graph)
+                        if exact_value in flat_graph.nodes[data_source].get("outputs", ()):
+                            data_value = exact_value
                     if not is_data_node_visible(data_source, data_value, flat_graph, expansion_state):
                         continue
                     data_node_id = f"data_{data_source}_{data_value}"
